@@ -96,7 +96,9 @@ func obligationName(fc *FuncContract, label string) string {
 func (v *Verifier) knownFor(name string) []*KnownFinding {
 	var out []*KnownFinding
 	for _, k := range v.Known {
-		if k.Status == "known" && k.Property == v.Prop && k.Obligation == name {
+		// (matched by obligation: in the thorough tier a clause is also checked under
+		// the other properties its function is listed for)
+		if k.Status == "known" && k.Obligation == name && (k.Property == v.Prop || allClausesMode) {
 			out = append(out, k)
 		}
 	}
@@ -293,7 +295,7 @@ func (v *Verifier) VerifyFunc(fc *FuncContract) {
 				continue
 			}
 			hyps := append(append(append([]*Term(nil), o.St.PC...), env.scratch.Facts...), ex.GlobalFacts...)
-			ob := &Obligation{Name: name, Func: fc.Key, Label: c.Label, Kind: "ensures", Path: i, Hyps: hyps, Goal: goal, Bounded: o.St.Bounded, Trace: traceStrings(o.St), PathSt: o.St, Fn: fn, RetVal: o.Ret, Panicked: o.Panic}
+			ob := &Obligation{Name: name, Func: fc.Key, Label: c.Label, Kind: "ensures", Path: i, Hyps: hyps, Goal: goal, Bounded: o.St.Bounded, Trace: traceStrings(o.St), PathSt: o.St, Fn: fn, RetVal: o.Ret, Panicked: o.Panic, NoConfirm: !c.taggedFor(v.Prop, fc)}
 			for _, kf := range v.knownFor(name) {
 				if kf.exceptExpr == nil {
 					continue
